@@ -54,7 +54,10 @@ def generate(seed, tier):
             tp["args"]["frame_type"] = ft
         tp["watches"] = r.sample(("depth", "depth + 41", "ctx", "out", "len(ctx)", "G_HOST", "[depth, ctx]",
                                   "{'w': depth}", "str(depth) * 3", "ctx['c']", "depth / 4", "depth * 1.5", "G_HOST / 3",
-                                  "depth + 100000"), r.choice((0, 0, 1, 2, 3)))
+                                  "depth + 100000",
+                                  # an expression may bind a name of its own (:=): that name belongs to the expression,
+                                  # it is not a name of the paused frame for the expressions evaluated after it
+                                  "(w_tmp := depth + 7) * 2", "w_tmp"), r.choice((0, 0, 1, 2, 3)))
         tps.append(tp)
     return {"prog": {"seed": seed, "name": "simval_%d" % (seed % 5), "opts": opts}, "tps": tps,
             "threads": [r.choice((1, 1, 2)) for _ in range(r.choice((1, 1, 2, 3)))],
